@@ -295,6 +295,14 @@ def Wire.dim : Wire → Nat
   | .bit d => d
   | .qubit d => d
 
+def isBitWire : Wire → Bool
+  | .bit _ => true
+  | .qubit _ => false
+
+def isQubitWire : Wire → Bool
+  | .bit _ => false
+  | .qubit _ => true
+
 /-- cqmap.Functor on types (cqmap.py:267-274 through rigid.py:430): the classical and the quantum
     wires are collected separately, each in order. -/
 def F : WTy → CQTy
@@ -363,6 +371,15 @@ def isMixed : CBox R → Bool
   | quantum _ _ _ => false
   | mixedArr _ _ _ => true
   | swap l r => l != r
+
+/-- How `circuit.Box.__init__` (circuit.py:599-606) classifies a box that is not mixed: the
+    all-Digit test comes FIRST, so a box without any wire (both tests hold vacuously) is
+    classical — `ClassicalGate(name, 0, 0, [w])` is a classical weight, not an amplitude; a box
+    on both bits and qubits is refused with a `ValueError`. -/
+def ofNonMixed (d c : WTy) (u : Mat R) : Except Err (CBox R) :=
+  if (d ++ c).all isBitWire then .ok (.classical d c u)
+  else if (d ++ c).all isQubitWire then .ok (.quantum d c u)
+  else .error .value
 
 /-- `_ar` for Measure (cqmap.py:280-285, with the repair of finding F3: the classical dimension
     is wrapped in `C(…)` before it is discarded). -/
@@ -505,10 +522,6 @@ end Generic
 /-- `Ket(0, …, 0)` on `n` qubits as one box. -/
 def ketZeros (n : Nat) : LBox D8 :=
   ⟨false, .quantum [] (qubits n) ⟨1, 2 ^ n, fun _ j => iv (j = 0)⟩⟩
-
-def isBitWire : Wire → Bool
-  | .bit _ => true
-  | .qubit _ => false
 
 def Value.entries : Value D8 → List D8
   | .tensor _ _ m => m.toList
